@@ -4,6 +4,7 @@ import (
 	"encoding/hex"
 	"fmt"
 	"reflect"
+	"regexp"
 	"sort"
 	"strings"
 
@@ -253,13 +254,23 @@ func Structure(p gopacket.Packet) Sig {
 	return s
 }
 
+// noErrText removes the error message of a DecodeFailure line: error texts are never compared
+// (a recovered bounds panic quotes the slice capacity, which legitimately differs with the
+// place the bytes live; WHERE a decoder fails is compared through the layer structure).
+var reErrText = regexp.MustCompile(`(DecodeFailure\t)[^\n]*`)
+
+func noErrText(s string) string { return reErrText.ReplaceAllString(s, "${1}<error text>") }
+
+// NoErrText is noErrText for the adapters.
+func NoErrText(s string) string { return noErrText(s) }
+
 // Rendering: String() of the packet and LayerString of every layer; Dump() only when the packet has
 // no error layer (a DecodeFailure's dump is a goroutine stack trace: addresses, goroutine ids).
 func Rendering(p gopacket.Packet) Sig {
 	var s Sig
-	s = append(s, "string="+call("String", p.String))
+	s = append(s, "string="+noErrText(call("String", p.String)))
 	for i, l := range p.Layers() {
-		s = append(s, fmt.Sprintf("L%d string=%s", i, call("LayerString", func() string { return gopacket.LayerString(l) })))
+		s = append(s, fmt.Sprintf("L%d string=%s", i, noErrText(call("LayerString", func() string { return gopacket.LayerString(l) }))))
 	}
 	if p.ErrorLayer() == nil {
 		s = append(s, "dump="+call("Dump", p.Dump))
